@@ -1880,7 +1880,7 @@ fn corpus_loops() -> Vec<LoopCase> {
 fn main() {
     let a = parse_args();
     let mut res = RunResult::new("C16", &a);
-    res.rule = "cases = (a) provider event lists for the collector from a clean grammar (unique ids, per-item order added/deltas/done, 5 argument deliveries) and a dirty one (missing/empty/shared/non-string ids, non-u64 output_index, any order, repeated events); (b) tool_choice values of every shape incl. malformed ones with probe names; (c) whole runs: config (history mode, tool_choice, follow-up message) x scripted provider rounds (clean/dirty events, [DONE] or not, HTTP error, dropped connection, random HTTP chunking, runs into the 32-call bound) with marker tools; non-trivial = at least one provider event; distinct by hash of the canonical case".into();
+    res.rule = "cases = (a) provider event lists for the collector from a clean grammar (unique ids, per-item order added/deltas/done, 5 argument deliveries) and a dirty one (missing/empty/shared/non-string ids, non-u64 output_index, any order, repeated events); (b) tool_choice values of every shape incl. malformed ones with probe names; (c) whole runs: config (history mode, tool_choice, follow-up message) x scripted provider rounds (clean/dirty events, [DONE] or not, HTTP error, dropped connection, random HTTP chunking, runs into the 32-call bound) with marker tools; non-trivial = at least one provider event; distinct by hash of the canonical case; answers end properly or (two in five) in a tail that only pipe.finish() delivers (CRLF body cut between CR and LF of the final blank line, LF + lone CR, [DONE] in the tail) or that is never dispatched (no final blank line, no line end, events after [DONE], empty body); (d) single answers of the same grammars and tails, any chunking, through the real pipe + collector; whole runs with such a tail (and a third of the others) are also compared from the bytes served".into();
     let mut st = schema::self_test();
     let mut known_vs_implementation = 0usize;
     for (b, want) in schema::known_bodies() {
@@ -1902,7 +1902,7 @@ fn main() {
     std::env::remove_var("RIP_CONFIG");
     std::env::remove_var("RIP_CONFIG_HOME");
     let (n_collect, n_enforce, n_loop, n_pipe) = match a.tier.as_str() {
-        "thorough" => (6000, 3000, 2500, 3000),
+        "thorough" => (6000, 3000, 2500, 2000),
         _ => (500, 250, 200, 240),
     };
     let mut r = Rng::new(a.seed);
@@ -2184,6 +2184,7 @@ fn main() {
         results.extend(outs);
     }
     let mut shrunk_classes: BTreeSet<String> = BTreeSet::new();
+    let mut n_from_bytes = 0usize;
     for (i, (c, o)) in results.iter().enumerate() {
         let case_id = (20_000 + i) as i64;
         let cj = json!({"loop": c});
@@ -2274,7 +2275,9 @@ fn main() {
             // the same run from the bytes: every run with a special tail, every corpus run, one in three of the others
             // (answers of more than 48 KB in total stay event-level: parsing them inside Coq costs seconds)
             let special = c.rounds.iter().any(|rd| rd.tail != 0);
-            if (special || i % 3 == 0 || i < n_corpus) && loop_body_bytes(c) <= 48_000 {
+            // (thorough: at most 1200 runs, a case costs about half a second of vm_compute)
+            if (special || i % 3 == 0 || i < n_corpus) && loop_body_bytes(c) <= 48_000 && n_from_bytes < 1200 {
+                n_from_bytes += 1;
                 let id = wb.push(coq_loop_case_b(c, &e));
                 res.bump("loop-compared-from-the-bytes");
                 if res.case_index.len() < 6000 {
